@@ -847,7 +847,10 @@ fn generate_deadlock(seed: u64) -> Scenario {
     let mut r = Rng::new(seed ^ 0xDEAD10C);
     let n = r.range(2, 5) as usize;
     let mut uid = 0u64;
-    fn chain(r: &mut Rng, uid: &mut u64, n: usize, from: usize, maxlen: u64, hold: u64) -> Body {
+    // "small" mode: tiny mailboxes (senders park on full mailboxes while edges exist); in-actor tells are left out there,
+    // because a cycle of tells blocked on full mailboxes would be a deadlock of the workload that nothing can detect
+    let small = r.chance(40);
+    fn chain(r: &mut Rng, uid: &mut u64, n: usize, from: usize, maxlen: u64, hold: u64, small: bool) -> Body {
         *uid += 1;
         let my = *uid;
         let mut steps = vec![];
@@ -865,7 +868,7 @@ fn generate_deadlock(seed: u64) -> Scenario {
                 steps.push(Step::Sleep(pre));
             }
             let post = 2 * r.below(3);
-            let sub = chain(r, uid, n, t, len - 1, post);
+            let sub = chain(r, uid, n, t, len - 1, post, small);
             match r.below(12) {
                 0 | 1 => steps.push(Step::Peer {
                     target: t,
@@ -884,7 +887,7 @@ fn generate_deadlock(seed: u64) -> Scenario {
                     mty: MTy::S,
                     body: sub,
                 }),
-                4 => steps.push(Step::Peer {
+                4 if !small => steps.push(Step::Peer {
                     target: t,
                     kind: SendKind::Tell,
                     mty: MTy::U,
@@ -913,23 +916,30 @@ fn generate_deadlock(seed: u64) -> Scenario {
     for a in 0..n {
         let start_steps = if a > 0 && r.chance(10) {
             // only targets lower indices: they are registered in the peers table before anything runs anyway
-            chain(&mut r, &mut uid, n, a, 1, 0).steps
+            chain(&mut r, &mut uid, n, a, 1, 0, small).steps
         } else {
             vec![]
         };
-        let run = if r.chance(15) {
-            let b = chain(&mut r, &mut uid, n, a, 2, 0);
+        let stop_steps = if r.chance(20) { chain(&mut r, &mut uid, n, a, 2, 0, small).steps } else { vec![] };
+        let run = if r.chance(20) {
+            let b = chain(&mut r, &mut uid, n, a, 2, 0, small);
             vec![RunStep {
                 segs: vec![2 * r.range(1, 4)],
                 steps: b.steps,
-                out: Out::False,
+                // an on_run error sends the actor into on_stop, whose asks must be tracked like any other hook's
+                out: if r.chance(40) { Out::Err } else { Out::False },
+            }]
+        } else if !stop_steps.is_empty() && r.chance(50) {
+            vec![RunStep {
+                segs: vec![2 * r.range(1, 8)],
+                steps: vec![],
+                out: Out::Err,
             }]
         } else {
             vec![]
         };
-        let stop_steps = if r.chance(15) { chain(&mut r, &mut uid, n, a, 2, 0).steps } else { vec![] };
         actors.push(ActorSpec {
-            cap: Some(16),
+            cap: Some(if small { 1 + r.below(2) as usize } else { 16 }),
             start: HookScript {
                 delay: if r.chance(20) { 2 } else { 0 },
                 steps: start_steps,
@@ -971,7 +981,7 @@ fn generate_deadlock(seed: u64) -> Scenario {
         }
         for _ in 0..r.range(1, 3) {
             let hold = 2 * r.below(3);
-            let b = chain(&mut r, &mut uid, n, first, 3, hold);
+            let b = chain(&mut r, &mut uid, n, first, 3, hold, small);
             let kind = if r.chance(55) { SendKind::Ask } else { SendKind::Tell };
             ops.push(ClientOp {
                 pre: match r.below(3) {
